@@ -139,6 +139,40 @@ func ruleL1(p *Prog) *RuleResult {
 			res.bad(fr.fn+"|framing", p.pos(f.Pos()), fmt.Sprintf("64-bit framing fields are %v, the extension spec says one 8-byte count and one 4-byte key per bucket", got))
 		}
 	}
+	// text form: both directions use the same base64 alphabet
+	for _, pkg := range []string{"roaring", "roaring64"} {
+		c := pkg + ".ToBase64/FromBase64|alphabet"
+		enc := func(fn string) (string, bool) {
+			f := p.Func(fn)
+			if f == nil {
+				return "", false
+			}
+			name := ""
+			for _, b := range f.Blocks {
+				for _, ins := range b.Instrs {
+					for _, op := range ins.Operands(nil) {
+						if g, ok := (*op).(*ssa.Global); ok && g.Pkg != nil && g.Pkg.Pkg.Path() == "encoding/base64" {
+							if name != "" && name != g.Name() {
+								return name + "+" + g.Name(), true
+							}
+							name = g.Name()
+						}
+					}
+				}
+			}
+			return name, name != ""
+		}
+		w, ok1 := enc("(*" + pkg + ".Bitmap).ToBase64")
+		r, ok2 := enc("(*" + pkg + ".Bitmap).FromBase64")
+		switch {
+		case !ok1 || !ok2:
+			res.undecided(c, "-", "ToBase64/FromBase64 do not reference an encoding/base64 alphabet directly")
+		case w == r:
+			res.ok(c, p.pos(p.Func("(*"+pkg+".Bitmap).FromBase64").Pos()), "both use base64."+w)
+		default:
+			res.bad(c, p.pos(p.Func("(*"+pkg+".Bitmap).FromBase64").Pos()), fmt.Sprintf("ToBase64 encodes with base64.%s, FromBase64 decodes with base64.%s: text containing '+' or '/' is rejected or misread", w, r))
+		}
+	}
 	// 64-bit size predictor: 8 + Σ (4 + inner size)
 	if f := p.Func("(*roaring64.roaringArray64).serializedSizeInBytes"); f == nil {
 		res.undecided("(*roaring64.roaringArray64).serializedSizeInBytes|framing", "-", "anchor not found")
